@@ -4361,7 +4361,7 @@ func init() {
 	reg(&Rule{ID: "R-C20-capturetrim", Props: []string{"C20"}, Floor: 2,
 		Doc: "an input iterator that reads through the capturing reader (the copy of a non-seekable input kept for error excerpts) gives the captured bytes back as it goes: its Next, or what Next calls, trims the capture buffer — otherwise `inputs` over a pipe retains the whole input",
 		Run: ruleCaptureTrim})
-	addDecided("C20", " The per-query regexp cache stores under a size test (R-C20-cachebound; D43); input iterators over the capturing reader trim the capture (R-C20-capturetrim; YAML input from a pipe: known finding D44).")
+	addDecided("C20", " The per-query regexp cache stores under a size test (R-C20-cachebound; D43); input iterators over the capturing reader trim the capture (R-C20-capturetrim; YAML input from a pipe did not, D44, repaired).")
 }
 
 func ruleCacheBound(c *Ctx, r *Rep) {
